@@ -108,7 +108,7 @@ def special_cases(rng, tier, rec, fam):
     from mashumaro.codecs.basic import BasicDecoder, BasicEncoder
     fam.exec_src(SPECIAL_PRE)
     mod = fam.module
-    which = rng.choice("ABCD")
+    which = rng.choice("ABCDE")
     det = lambda **kw: dict({"scenario": which}, **kw)
 
     def check(label, fn, expected, src=""):
@@ -187,6 +187,20 @@ def special_cases(rng, tier, rec, fam):
                 else:
                     rec.violation(f"special:B:root-{lab}:{name}", det(shape=shape_src, codec=name, document=repr(dump(doc))[:80], observed=f"{type(got).__name__}: {got!r}"[:200], expected=repr(exp)),
                                   {"scenario": "special-B"})
+    elif which == "E":
+        # scalar members that are not spelled as the builtin itself: NewType, PEP 695 alias, LiteralString, Annotated
+        src = ("from typing_extensions import LiteralString\nUserId = NewType('UserId', int)\ntype Cnt = int\ntype Txt = str\n"
+               "@dataclass\nclass HS(DataClassDictMixin):\n    a: Union[UserId, str] = 0\n    b: Union[Cnt, str] = 0\n    c: Union[LiteralString, int] = 0\n"
+               "    d: Union[Annotated[int, 'm'], str, None] = None\n    e: Union[Txt, float] = 0.0\n    f: List[Union[UserId, None, float]] = field(default_factory=list)\n")
+        fam.exec_src(src)
+        HS = mod.HS
+        for fld, cases in (("a", [(5, 5), ("x", "x"), (True, 1), (1.5, 1)]), ("b", [(5, 5), ("x", "x"), (1.5, 1)]), ("c", [("s", "s"), (7, 7), (1.5, "1.5")]),
+                           ("d", [(3, 3), ("t", "t"), (None, None)]), ("e", [("t", "t"), (2.5, 2.5), (3, "3")])):
+            for wire, want in cases:
+                check(f"decode|{fld}|{type(wire).__name__}", lambda fld=fld, wire=wire: getattr(HS.from_dict({fld: wire}), fld), want, src)
+        check("decode|f|list", lambda: HS.from_dict({"f": [1, None, 2.5]}).f, [1, None, 2.5], src)
+        check("codec|newtype-member", lambda: BasicDecoder(eval("Union[UserId, str]", mod.__dict__)).decode("q"), "q", src)
+        check("encode|newtype-member", lambda: HS(a=5, b="x").to_dict()["a"], 5, src)
     elif which == "D":
         # recursive PEP 695 aliases: every level of the nesting is resolved by the same member rules, with the same flags
         flags = rng.choice(["", "TO_DICT_ADD_OMIT_NONE_FLAG, TO_DICT_ADD_BY_ALIAS_FLAG"])
